@@ -483,3 +483,17 @@ func init() {
 		},
 	})
 }
+
+func init() {
+	register(&Property{
+		ID:    "C15",
+		Units: []string{"fasthttp.(*Server).Serve", "fasthttp.(*Server).ShutdownWithContext", "fasthttp.(*Server).Shutdown", "fasthttp.(*Server).closeIdleConns", "fasthttp.(*Server).closeListenersLocked", "fasthttp.acceptConn", "fasthttp.(*Server).serveConn", "fasthttp.(*Server).serveConnCounted", "fasthttp.(*workerPool)", "fasthttp.(*RequestCtx).Done"},
+		Runs: []Run{
+			{Pkg: "fasthttp", Func: "vhC15Shutdown", NoNative: true},
+		},
+		Assume: []string{
+			"the real Server.Serve (accept loop, worker pool), serve loop and Shutdown on the engine's cooperative scheduler with virtual time, over a scripted listener and blocking in-memory connections: connection 1 sends one or two pipelined requests whose handler takes 0 or 300 ms and then stays open; an optional connection 2 is served once and left idle; Shutdown is called 10 or 150 ms after the requests were sent",
+			"obligations after Shutdown returned nil: the listener is closed, Serve has returned nil, no handler is running, every handler that started has its response on the wire (one response per started handler), a handler still running when shutdown began sees its Done channel closed, idle connections were closed rather than waited for (Shutdown takes at most the handler time plus two polling ticks), counters settle; CloseOnShutdown, ShutdownWithContext deadlines, TLS and hijacked connections are outside; choices only, not re-run natively (schedule-dependent)",
+		},
+	})
+}
